@@ -1,6 +1,7 @@
 import QuinnModel.Conn.Amplification
 import QuinnModel.Conn.Lifecycle
 import QuinnModel.Conn.Timers
+import QuinnModel.Conn.Path
 import QuinnModel.Util
 /- Trace-validation front ends for the Connection-level skeleton models (stateless: each request
    carries the observed before-state; the model prints the after-state it predicts). -/
@@ -102,6 +103,47 @@ def timers : List String → String
       let o := fun (x : Option Nat) => match x with | some n => toString n | none => "-"
       let ex := (Timers.expired t now).map toString
       s!"{o (Timers.nextTimeout t)} [{",".intercalate ex}]"
+    | _, _ => "bad-op"
+  | _ => "bad-op"
+
+/-- path state encoding: `<addr> <validated> <challengeSome> <pending> <prev: - | addr:v:ch:pd> <timer: - | t> <mayMigrate>` -/
+def pathParse : List String → Option PathM.S
+  | [a, v, c, pd, prev, timer, mm] =>
+    let mkP := fun (a v c pd : Nat) (tok : Nat) => (⟨a, v == 1, if c == 1 then some tok else none, pd == 1⟩ : PathM.P)
+    match a.toNat?, v.toNat?, c.toNat?, pd.toNat?, connOptNat timer, mm.toNat? with
+    | some a, some v, some c, some pd, some timer, some mm =>
+      let prev? : Option (Option PathM.P) :=
+        if prev == "-" then some none else
+        match (prev.splitOn ":").mapM String.toNat? with
+        | some [pa, pv, pc, ppd] => some (some (mkP pa pv pc ppd 2))
+        | _ => none
+      match prev? with
+      | some pr => some ⟨mkP a v c pd 1, pr, timer, mm == 1⟩
+      | none => none
+    | _, _, _, _, _, _ => none
+  | _ => none
+
+def pathShow (s : PathM.S) : String :=
+  let sp := fun (p : PathM.P) (sep : String) => s!"{p.addr}{sep}{connB01 p.validated}{sep}{connB01 p.challenge.isSome}{sep}{connB01 p.pending}"
+  let pr := match s.prev with | some p => sp p ":" | none => "-"
+  let o := fun (x : Option Nat) => match x with | some n => toString n | none => "-"
+  s!"{sp s.path " "} {pr} {o s.timer} {connB01 s.mayMigrate}"
+
+/-- `pathm <event …> <before-state>`: prints the after-state predicted by `PathM.step`.
+    Tokens are abstract: the current path's challenge is token 1, the previous path's token 2; a response is
+    `match` (echoes the current challenge) or `nomatch`. -/
+def pathm : List String → String
+  | "pkt" :: src :: trig :: now :: pto3 :: st =>
+    match src.toNat?, trig.toNat?, now.toNat?, pto3.toNat?, pathParse st with
+    | some src, some trig, some now, some pto3, some s => pathShow (PathM.step s (.pkt src (trig == 1) now pto3 1 2))
+    | _, _, _, _, _ => "bad-op"
+  | "response" :: src :: m :: st =>
+    match src.toNat?, pathParse st with
+    | some src, some s => pathShow (PathM.step s (.response src (if m == "match" then 1 else 99)))
+    | _, _ => "bad-op"
+  | "timeout" :: now :: st =>
+    match now.toNat?, pathParse st with
+    | some now, some s => pathShow (PathM.step s (.timeout now))
     | _, _ => "bad-op"
   | _ => "bad-op"
 
